@@ -149,7 +149,12 @@ INLINE = [
     ("link_text_is_label", "[lab](http://other.example/x \"O\")"), ("ref_text_is_label", "[lab][lab2]"),
     ("code_bt_start", "`` `tick ``"), ("code_bt_end", "`` tick` ``"), ("code_bt_both_sp", "``  `a`  ``"),
     ("www", "www.example.com/a_b?c=d"), ("email", "<joe.q@example.com>"), ("mailto", "<mailto:joe@example.com>"), ("link_escparen", "[t](http://e.com/a\\)b \"say \\\"hi\\\"\")"),
+    # constructs that span two source lines, the first ending in two spaces / a backslash / one space: not a hard break inside a tag, comment or title
+    ("html_ml_2sp", "<span  \nclass=\"a\">"), ("hcomment_ml_2sp", "<!-- c  \nd -->"), ("link_title_ml_2sp", "[t](http://e.com \"ti  \ntle\")"),
+    ("image_title_ml_2sp", "![i](x.png \"ti  \ntle\")"), ("html_ml_bs", "<span\\\nclass=\"a\">"), ("html_ml_1sp", "<span \nclass=\"a\">"), ("code_ml_2sp", "`co  \nde`"),
+    ("link_text_ml_2sp", "[li  \nnk](http://e.com)"), ("tag_ml_2sp", "{% tag a=\"1\"  \nb='2' %}"),
 ]
+CONT = {"": "", "- ": "  ", "> ": "> "}
 DEFS = "\n\n[lab]: http://ref.example.com/a_b \"Ref 'title'...\"\n[lab2]: http://second.example.com/\n\n[^fn]: The footnote text.\n"
 WORDS = ["alpha", "beta", "gamma", "delta", "epsilon", "zeta"]
 
@@ -163,8 +168,10 @@ def inline_cases(tier):
                 for typo in (False, True):
                     for sem in (False, True):
                         for prefix in ("", "- ", "> "):
+                            if prefix == "> " and "\n" in span:
+                                continue        # the source-side tag scan would take the quote marker of the second line for content
                             ws = WORDS[:pos] + [span] + WORDS[pos:]
-                            cases.append((name, prefix + " ".join(ws) + "." + DEFS, dict(width=w, semantic=sem, cleanups=typo, smartquotes=typo, ellipses=typo)))
+                            cases.append((name, prefix + " ".join(ws).replace("\n", "\n" + CONT[prefix]) + "." + DEFS, dict(width=w, semantic=sem, cleanups=typo, smartquotes=typo, ellipses=typo)))
     # code spans whose content holds an inner backtick run and a block-looking word: every width around the wrap point
     for span in ("``a ` - b``", "`` x ` 1. y ``", "``c ` # d``", "```e `` > f```", "``g ` --- h``"):
         for pos in (2, 4):
@@ -270,6 +277,14 @@ def run(tier: str) -> int:
             m = lmeta[t["id"]]
             info = dict(m, first_diff=dm, literal_in=t["tm_in"][dm - 1: dm + 1], literal_out=t["tm_out"][dm - 1: dm + 1])
             fid = {"code_bt_edge": "D3", "code_bt": "D3", "link_angle": "D24"}.get(m["construct"])
+            # D64: a template tag that spans two lines, the first ending in two spaces: Markdown reads a hard break there and the renderer
+            # spells it backslash + newline, inside the tag. Attributed only if the output literals are exactly the input literals with
+            # that one rewrite applied to the tags (anything else that differs is reported)
+            if fid is None and "D64" in chk.open_findings and re.search(r" {2,}\n", m["src"]):
+                asis = [s_ for s_ in project.literals(project.parse_marko(m["src"]))] + \
+                       ["tag:" + re.sub(r"\s+", " ", re.sub(r" {2,}\n", "\\\\\n", mm.group(0))) for mm in TAG_RE.finditer(m["src"])]
+                if asis == t["tm_out"] and asis != t["tm_in"]:
+                    fid = "D64"
             if fid and fid in chk.open_findings:
                 chk.known_finding(fid, info)
             else:
